@@ -24,11 +24,14 @@ PROPS["C06"] = Prop(
 PARAMS["C06"] = {"rule": "exhaustive: for N in 0..=8, every reachable (front, back), directly and via a clone, every operation with every argument 0..=len+2, bracketed by the passive observers; plus seeded random operation sequences (length ≤ 64) over the length lattice. Distinct = distinct scenario lines; non-trivial = at least one operation returned Some(_)."}
 
 PROPS["C01"] = Prop(
-    "C01", ["GA.Props.C01", "GA.Props.C16", "GA.Props.BodyBoxed"],
+    "C01", ["GA.Props.C01", "GA.Props.C16", "GA.Props.BodyBoxed", "GA.Props.C19"],
     [Engine("layout", scen.layout, sig=lambda l: l.split()[0]),
      Engine("layout", scen.layout_full, bin="layout_full", sig=lambda l: l.split()[0]),
      Engine("xmute", scen.xmute, sig=lambda l: "xmute"),
-     Engine("heap", scen.heap_c01, sig=lambda l: "heap/" + l.split()[2], body_view=True)],
+     Engine("heap", scen.heap_c01, sig=lambda l: "heap/" + l.split()[2], body_view=True),
+     # observe_at: "arrays built field-by-field through ConstDefault, read back through the slice view"; zeroize walks the
+     # array as raw memory between two canaries ("never touches ... memory outside the array")
+     Engine("fill", scen.fill, sig=lambda l: "fill/" + l.split()[0])],
     trusted=[KERNEL, TRANSLATOR, BODYTIE, HARNESS,
              "modelled, not verified: rustc's implementation of repr(C), repr(transparent), [T; 0] and PhantomData layout (the Rust Reference's algorithm is the model); validated against size_of/align_of on the grid"],
     assumptions=["every Rust type has 0 < align and align | size (language guarantee); element layouts are abstracted to (size, align)",
@@ -190,9 +193,10 @@ PROPS["C20"] = Prop(
 PARAMS["C20"] = {"rule": "list form: every element count 0..=64, 100, 128, 255, 256 x {arr!, box_arr!} x {Copy, non-Copy elements} with index-logging element expressions, trailing commas 0/1/2 at small and boundary counts; both repeat forms x N in {0..8,16,17,31,32,33,64,97,255,256,1000,1023,1024} x {arr!, box_arr! (Copy and Clone-only elements)}: type-level length, values, evaluation log. Const positions: each list count and each repeat length as a const item (plus static and const fn bodies), compiled against the crate and compared with the literal at run time."}
 
 PROPS["C18"] = Prop(
-    "C18", ["GA.Props.C18", "GA.Props.C20"],
+    "C18", ["GA.Props.C18", "GA.Props.C20", "GA.Props.C19"],
     [Engine("constapi", scen.constapi, runner=corpora.constapi_runner, sig=lambda l: " ".join(t for t in l.split() if t.split("=")[0] in ("fn", "ty"))),
-     Engine("arrconst", scen.arrconst_c18, runner=corpora.arrconst_runner, sig=lambda l: " ".join(t for t in l.split() if t.split("=")[0] in ("form", "pos")))],
+     Engine("arrconst", scen.arrconst_c18, runner=corpora.arrconst_runner, sig=lambda l: " ".join(t for t in l.split() if t.split("=")[0] in ("form", "pos"))),
+     Engine("filldefault", scen.filldefault_c18, runner=corpora.filldefault_runner, sig=lambda l: " ".join(l.split()[:2]))],
     trusted=[KERNEL, TRANSLATOR, HARNESS,
              "modelled, not verified: the compile-time interpreter's judgement is reduced to (a) references stay inside the allocation they were derived from, (b) a &mut is derived from the unique borrow, (c) documented panics, (d) only const fns are called; rustc's actual interpreter is the implementation side of the correspondence (tools/corpus.py compiles every generated const item against the crate and runs the value comparison)",
              "arr! and const_default in const positions are decided by C20 and C19"],
@@ -245,3 +249,35 @@ PROPS["C15"] = Prop(
     nontrivial=lambda s, impl: " n=0 " not in s,
 )
 PARAMS["C15"] = {"rule": "try_from_vec (with and without spare capacity), try_from_boxed_slice, TryFrom<Vec>/TryFrom<Box<[T]>>, boxed collect x N in the heap lattice x source lengths {0,N-1,N,N+1}; into_boxed_slice, into_vec, From<GenericArray> for Box<[T]>/Vec, Box IntoIterator; 6 element kinds; contents, Ok/Err, block address before/after, allocator call count, per-element drops; 4 MiB default_boxed / boxed generate / box_arr! / boxed collect / into_vec on a 256 KiB stack (child process)."}
+
+# ------------------------------------------------------------------------------------------------
+# Function inventory (GA.Bridge.Surface.*): every property owns the inventory of its anchor files
+# (properties.jsonl `anchors.files`); C05 ("an intermediate value of any operation") additionally owns C04's.
+# A function that is new in one of these files is code no model covers: the obligation fails and the check widens.
+# ------------------------------------------------------------------------------------------------
+SURFACE_MOD = {"src/lib.rs": "Lib", "src/iter.rs": "Iter", "src/internal.rs": "Internal", "src/impls.rs": "Impls",
+               "src/sequence.rs": "Sequence", "src/functional.rs": "Functional", "src/impl_alloc.rs": "ImplAlloc",
+               "src/impl_serde.rs": "ImplSerde", "src/impl_zeroize.rs": "ImplZeroize", "src/impl_const_default.rs": "ImplConstDefault",
+               "src/hex.rs": "Hex", "src/arr.rs": "Arr"}
+
+
+def _anchor_files():
+    import json, os
+    out = {}
+    root = os.path.dirname(os.path.dirname(os.path.abspath(__file__)))
+    for line in open(os.path.join(root, "properties.jsonl")):
+        line = line.strip()
+        if line:
+            p = json.loads(line)
+            out[p["id"]] = list(p.get("anchors", {}).get("files", []))
+    return out
+
+
+_AF = _anchor_files()
+_AF["C05"] = sorted(set(_AF.get("C05", [])) | set(_AF.get("C04", [])))
+_AF["C01"] = sorted(set(_AF.get("C01", [])) | {"src/impl_zeroize.rs"})
+for _pid, _pr in PROPS.items():
+    for _f in _AF.get(_pid, []):
+        _m = "GA.Bridge.Surface." + SURFACE_MOD[_f] if _f in SURFACE_MOD else None
+        if _m and _m not in _pr.lean:
+            _pr.lean.append(_m)
